@@ -276,7 +276,8 @@ func verifC18WriteLog(rng *rand.Rand, format int, logNum uint64, target int, max
 	var err error
 	bl.chunks, err = verifC18ParseChunks(bl.data, logID)
 	if err != nil {
-		return nil, err
+		// the caller still reads the intact file back with the real reader
+		return bl, err
 	}
 	// record end offsets
 	for _, c := range bl.chunks {
@@ -288,7 +289,7 @@ func verifC18WriteLog(rng *rand.Rand, format int, logNum uint64, target int, max
 		}
 	}
 	if len(bl.recEnd) != len(bl.recs) {
-		return nil, fmt.Errorf("harness parser found %d records, wrote %d", len(bl.recEnd), len(bl.recs))
+		return bl, fmt.Errorf("harness parser found %d records, wrote %d", len(bl.recEnd), len(bl.recs))
 	}
 	return bl, nil
 }
@@ -448,10 +449,10 @@ func TestVerifC18(t *testing.T) {
 		"written by each of the 3 writers (legacy Writer via WriteRecord or Next/Write pieces/Flush; LogWriter recyclable; LogWriter WAL-sync with some records synced), "+
 		"plus for the two LogWriter formats a recycled overlay (older longer log, log number smaller by exactly 1 or by more, same or the other LogWriter format; half of the same-format old logs share a prefix of the record sizes so chunk boundaries coincide). "+
 		"Enumerated offsets O(file): every o with |o-b|<=%d for b in {chunk header start, payload start, chunk end}, every o with |o-b|<=%d for b in {every multiple of 32768, file length}, plus each other offset with p=%.0f%% "+
-		"(thorough: every offset 0..len when len<=96KiB). Damage reads: cut file[:o]; zero-tail file[:o]+zeros; overlay new[:o]+old[o:] for o in O(new); overlay-cut (new+old[len(new):])[:o] for o in O(old), o>len(new). "+
+		"(every offset 0..len when len<=1500, thorough: when len<=16KiB). Damage reads: cut file[:o]; zero-tail file[:o]+zeros; overlay new[:o]+old[o:] for o in O(new); overlay-cut (new+old[len(new):])[:o] for o in O(old), o>len(new). "+
 		"An evaluation = one read of one damaged (or intact) file; distinct non-trivial = (case, format, damage kind) of a log with >=2 records with at least one read that returned a proper non-empty prefix (overlay-cut: at least one read, all records must come back).", win, bwin, pct))
 	r.Assume("the harness chunk parser (verifC18ParseChunks below) is used only to pick offsets and to compute the lower bound on the number of records that must survive; a parser/writer disagreement is reported as harness-parse-error, not as held")
-	n := vcommon.Scale(24, 420)
+	n := vcommon.Scale(24, 240)
 	var buf []byte
 	buf = make([]byte, 0, 1<<17)
 	r.Cases(n, func(ci int, rng *rand.Rand) {
@@ -495,6 +496,26 @@ func TestVerifC18(t *testing.T) {
 			}
 			bl, err := verifC18WriteLog(rng, format, baseNum, target, maxRecs, fixed, nil)
 			if err != nil {
+				// The harness parser rejects the file the real writer produced. Let
+				// the real reader decide first: if the intact file does not read
+				// back, that is the violation; otherwise the harness is at fault.
+				if bl != nil && bl.data != nil {
+					disableBitFlipCheckForTesting = true
+					res := verifC18ReadBack(bl.data, baseNum, bl.recs, nil, &buf)
+					r.Eval(1)
+					if res.badIdx >= 0 || res.k != len(bl.recs) || res.term != "eof" {
+						cls := "intact-log-not-clean"
+						if res.badIdx >= 0 {
+							cls = res.badClass
+						} else if res.k != len(bl.recs) {
+							cls = "intact-record-dropped"
+						}
+						r.Violate(cls, fmt.Sprintf("%s intact log (which the harness parser also rejects: %v) reads back %d of %d records and ends with %v",
+							verifC18FmtNames[format], err, res.k, len(bl.recs), res.termErr),
+							map[string]any{"case": ci, "damage": "intact", "log": bl.spec}, map[string]any{"format": verifC18FmtNames[format], "damage": "intact"})
+						continue
+					}
+				}
 				r.Violate("harness-parse-error", fmt.Sprintf("writing/parsing %s log: %v", verifC18FmtNames[format], err),
 					map[string]any{"case": ci, "format": verifC18FmtNames[format]}, nil)
 				continue
@@ -510,7 +531,8 @@ func TestVerifC18(t *testing.T) {
 					r.SetAdd("block_end_leftover_bytes_seen_"+verifC18FmtNames[format], "00")
 				}
 			}
-			all := thorough && len(bl.data) <= 96<<10
+			// every offset: files <= 1500 bytes always, <= 16 KiB in the thorough tier
+			all := len(bl.data) <= 1500 || (thorough && len(bl.data) <= 16<<10)
 			offs := verifC18OffsetSet(rng, len(bl.data), bl.chunks, win, bwin, pct, all)
 			if all {
 				r.Count("logs_with_every_offset_enumerated", 1)
